@@ -248,6 +248,174 @@ theorem Ob_MapSlab_Remove_heap_of_tailsH (cfg : MCfg) (k : MKey) (v : Elem) (P :
 
 end
 
+/-! ### the top level -/
+
+section
+variable (T : Nat) (eb : DEnvB r) (rs : DRestruct r) (Q : (d : Nat) → MTree r d → Prop) (QR : OMap r → Prop)
+
+/-- `if m.root.IsFull() { m.splitRoot() }` and the result `(removed key, removed value, nil)` -/
+def mdsr_finish (rk rv : Option SV) (M : DMap r) : Option (Option SV × Option SV × Option GE × DMap r) :=
+  match MapSlab_IsFull (envD T eb rs) M.root with
+  | none => none
+  | some true =>
+    let q := rs.splitRoot M
+    if (!q.1.isNone) then some (none, none, q.1, q.2) else some (rk, rv, none, q.2)
+  | some false => some (rk, rv, none, M)
+
+theorem mdsr_finish_model (hR : MRootTailR T rs QR) (hT1 : maxThr T < 2^32) (addr : Nat) (m2 : OMap r) (s2 : MHSt r)
+    (x2 : Option DX) (rk rv : Option SV) (hpre : mds_RootPreR QR addr s2 m2 x2)
+    (hsz : (MTree.hdr m2.d m2.root).size < 2^32) :
+    match m2.splitRootIfFull T s2.ctx with
+    | .ok (m3, c3) =>
+      ∃ s3 x3, mdsr_finish T eb rs rk rv (md_map m2 s2) = some (rk, rv, none, md_map m3 s3) ∧ s3.ctx = c3 ∧
+        s3.popped = s2.popped ∧ mds_RootPreR QR addr s3 m3 x3 ∧
+        mds_Delta s2.heap s3.heap (md_ids m2.d m2.root) (md_ids m3.d m3.root)
+    | .error e => ∃ M', mdsr_finish T eb rs rk rv (md_map m2 s2) = some (none, none, some e, M') := by
+  have hfull : MapSlab_IsFull (envD T eb rs) (md_map m2 s2).root = some (MTree.isFull T m2.d m2.root) :=
+    mds_isFull_tree T eb rs m2.d m2.root _ hsz hT1
+  unfold mdsr_finish
+  rw [hfull]
+  unfold OMap.splitRootIfFull
+  cases hf : MTree.isFull T m2.d m2.root with
+  | false =>
+    simp only [Bool.false_eq_true, if_false]
+    exact ⟨s2, x2, rfl, rfl, rfl, hpre, mds_Delta.refl _ _⟩
+  | true =>
+    simp only [if_true]
+    have ht := hR.splitRoot addr m2 s2 x2 hpre hf
+    rcases hsp : m2.splitRoot s2.ctx with e | ⟨m3, c3⟩
+    · rw [hsp] at ht
+      obtain ⟨M', hr⟩ := ht
+      exact ⟨M', by rw [hr]; rfl⟩
+    · rw [hsp] at ht
+      obtain ⟨s3, hr, hc, hpp, hpre3, hdl⟩ := ht
+      exact ⟨s3, _, by rw [hr]; rfl, hc, hpp, hpre3, hdl⟩
+
+theorem mdsr_promote_model (hR : MRootTailR T rs QR)
+    (hQRhdrs : ∀ d (xr : MMetaSlab (MTree r d)) ty cnt seed, QR ⟨d + 1, xr, ty, cnt, seed⟩ →
+      xr.childHdrs = xr.children.map (MTree.hdr d))
+    (addr : Nat) (m1 : OMap r) (s1 : MHSt r) (x1 : Option DX) (hpre : mds_RootPreR QR addr s1 m1 x1) :
+    ∃ s2 x2, mdr_promoteStep rs (md_map m1 s1) = (none, md_map (m1.promoteIfSingleChild s1.ctx).1 s2) ∧
+      s2.ctx = (m1.promoteIfSingleChild s1.ctx).2 ∧ s2.popped = s1.popped ∧
+      mds_RootPreR QR addr s2 (m1.promoteIfSingleChild s1.ctx).1 x2 ∧
+      mds_Delta s1.heap s2.heap (md_ids m1.d m1.root) (md_ids _ (m1.promoteIfSingleChild s1.ctx).1.root) := by
+  obtain ⟨d, root, ty, cnt, seed⟩ := m1
+  cases d with
+  | zero => exact ⟨s1, x1, rfl, rfl, rfl, hpre, mds_Delta.refl _ _⟩
+  | succ d =>
+    have hc : MMetaSlab.childHdrs root = (MMetaSlab.children root).map (MTree.hdr d) := hQRhdrs d root ty cnt seed hpre.inv
+    have hroot : (md_map (⟨d + 1, root, ty, cnt, seed⟩ : OMap r) s1).root =
+        .metaSlab (md_meta root (some (md_extra (⟨d + 1, root, ty, cnt, seed⟩ : OMap r)))) := rfl
+    rcases hch : MMetaSlab.childHdrs root with _ | ⟨h, _ | ⟨h2, tl⟩⟩
+    · have hm : OMap.promoteIfSingleChild ⟨d + 1, root, ty, cnt, seed⟩ s1.ctx = (⟨d + 1, root, ty, cnt, seed⟩, s1.ctx) := by
+        simp only [OMap.promoteIfSingleChild, hch]
+      rw [hm]
+      refine ⟨s1, x1, ?_, rfl, rfl, hpre, mds_Delta.refl _ _⟩
+      simp only [mdr_promoteStep, hroot, md_meta, hch, List.map_nil]
+    · have ht := hR.promote addr d root ty cnt seed h s1 x1 hch hc hpre
+      obtain ⟨s2, hr, hc2, hpp, hpre2, hdl⟩ := ht
+      refine ⟨s2, _, ?_, hc2, hpp, hpre2, hdl⟩
+      simp only [mdr_promoteStep, hroot, md_meta, hch, List.map_cons, List.map_nil, md_hdr]
+      exact hr
+    · have hm : OMap.promoteIfSingleChild ⟨d + 1, root, ty, cnt, seed⟩ s1.ctx = (⟨d + 1, root, ty, cnt, seed⟩, s1.ctx) := by
+        simp only [OMap.promoteIfSingleChild, hch]
+      rw [hm]
+      refine ⟨s1, x1, ?_, rfl, rfl, hpre, mds_Delta.refl _ _⟩
+      simp only [mdr_promoteStep, hroot, md_meta, hch, List.map_cons]
+
+/-- the model's `OMap.remove` with its stages named -/
+theorem mdsr_OMap_remove_eq (cfg : MCfg) (m : OMap r) (k : MKey) (c : Ctx) :
+    OMap.remove cfg m k c =
+      match MTree.remove cfg m.d m.root k c with
+      | .error e => .error e
+      | .ok (rk, rv, root', c1) =>
+        match (OMap.promoteIfSingleChild ({ m with root := root', count := m.count - 1 } : OMap r) c1).1.splitRootIfFull
+            cfg.T (OMap.promoteIfSingleChild ({ m with root := root', count := m.count - 1 } : OMap r) c1).2 with
+        | .error e => .error e
+        | .ok (m3, c3) => .ok (rk, rv, m3, c3) := by
+  simp only [OMap.remove, bind, Except.bind, pure, Except.pure]
+  rcases MTree.remove cfg m.d m.root k c with e | ⟨rk, rv, root', c1⟩
+  · rfl
+  · simp only []
+    rcases OMap.splitRootIfFull cfg.T _ _ with e | ⟨m3, c3⟩ <;> rfl
+
+end
+
+section
+variable (eb : DEnvB r) (rs : DRestruct r) (Q : (d : Nat) → MTree r d → Prop) (QR : OMap r → Prop)
+
+/-- THE WHOLE `OMap.remove` OVER THE HEAP, given the (Set) tails -/
+theorem Ob_OrderedMap_remove_heap_of_tailsH (Qin : (d : Nat) → MTree r d → Prop) (cfg : MCfg) (k : MKey) (v : Elem)
+    (P : DG r → Prop) (L : MDataSlab r → Prop) (hE : ElemsSpec cfg k v P eb) (hS : MSplitTail cfg.T rs Q)
+    (hM : MMorTailH cfg.T rs Q) (hR : MRootTailR cfg.T rs QR)
+    (hQin : ∀ d (t : MTree r d), Qin d t → Q d t)
+    (hQrem : ∀ d (t t' : MTree r d) rk rv c c', Qin d t → MTree.remove cfg d t k c = .ok (rk, rv, t', c') → Q d t')
+    (hQRhdrs : ∀ d (xr : MMetaSlab (MTree r d)) ty cnt seed, QR ⟨d + 1, xr, ty, cnt, seed⟩ →
+      xr.childHdrs = xr.children.map (MTree.hdr d))
+    (hmono : ∀ (sl : MDataSlab r) c rk rv sl' c', L sl → MDataSlab.remove cfg sl k c = .ok (rk, rv, sl', c') →
+      c.ctr ≤ c'.ctr)
+    (hT1 : maxThr cfg.T < 2^32) (hT2 : minThr cfg.T < 2^32) (hhk : k.dig 0 < 2^64)
+    (m : OMap r) (s : MHSt r) (x0 : Option DX) (depth : Nat) (hd : m.d ≤ depth)
+    (hheld : MHolds s.heap m.d m.root x0) (hnd : (md_ids m.d m.root).Nodup)
+    (haddr : ∀ id ∈ md_ids m.d m.root, id.addr = cfg.addr) (hff : mds_FreshFree cfg.addr s)
+    (hroot : mds_rootFlag m.d m.root = true)
+    (hp : mdsr_Path cfg k P L Qin m.d m.root s.ctx)
+    (hcount : ∀ rk rv root' c1, MTree.remove cfg m.d m.root k s.ctx = .ok (rk, rv, root', c1) → 0 < m.count)
+    (hQRrem : ∀ rk rv root' c1, MTree.remove cfg m.d m.root k s.ctx = .ok (rk, rv, root', c1) →
+      QR ({ m with root := root', count := m.count - 1 } : OMap r))
+    (hszR : ∀ rk rv root' c1, MTree.remove cfg m.d m.root k s.ctx = .ok (rk, rv, root', c1) →
+      (MTree.hdr _ (OMap.promoteIfSingleChild ({ m with root := root', count := m.count - 1 } : OMap r) c1).1.root).size
+        < 2^32) :
+    match OMap.remove cfg m k s.ctx with
+    | .ok (rk, rv, m', c') =>
+      ∃ s' x', OrderedMap_remove (envD cfg.T eb rs) depth (md_map m s) (.key k) =
+          some (some (.key rk), some (.val rv), none, md_map m' s') ∧
+        s'.ctx = c' ∧ s'.popped = s.popped ∧ mds_RootPreR QR cfg.addr s' m' x' ∧
+        mds_Delta s.heap s'.heap (md_ids m.d m.root) (md_ids m'.d m'.root)
+    | .error e => ∃ M', OrderedMap_remove (envD cfg.T eb rs) depth (md_map m s) (.key k) = some (none, none, some e, M') := by
+  have hT := Ob_MapSlab_Remove_heap_of_tailsH eb rs cfg k v P L Q Qin hE hS hM hQin hQrem hmono hT1 hT2 hhk m.d depth
+    m.root (some (md_extra m)) x0 s hd hheld (by rw [hroot]; rfl) hnd haddr hff hp
+  rw [mdsr_OMap_remove_eq]
+  rcases hq : MTree.remove cfg m.d m.root k s.ctx with e | ⟨rk, rv, root', c1⟩
+  · rw [hq] at hT
+    obtain ⟨root'', s'', hg⟩ := hT
+    exact ⟨_, Ob_OrderedMap_remove_err cfg.T eb rs (md_map m s) k depth root'' s'' none none e hg⟩
+  · rw [hq] at hT
+    obtain ⟨s1, h1, h2, h3, hpost⟩ := hT
+    subst h2
+    simp only []
+    have hszR' := hszR rk rv root' s1.ctx hq
+    have hQR1 := hQRrem rk rv root' s1.ctx hq
+    have hc0 := hcount rk rv root' s1.ctx hq
+    have hstep := Ob_OrderedMap_remove_step_md cfg.T eb rs m s k depth m.d root' s1 (some (.key rk)) (some (.val rv)) hc0 h1
+    generalize hm1 : ({ m with root := root', count := m.count - 1 } : OMap r) = m1 at hszR' hQR1
+    have hpre1 : mds_RootPreR QR cfg.addr s1 m1 (some (md_extra m)) := by
+      subst hm1
+      exact ⟨hpost.holds, hpost.nodup, hpost.addrOk, hpost.ff, hQR1⟩
+    have hids1 : md_ids m1.d m1.root = md_ids m.d root' := by subst hm1; rfl
+    have hx1 : md_extra ({ m with count := m.count - 1 } : OMap r) = md_extra m1 := by subst hm1; rfl
+    have hM1 : (⟨s1, md_tree m.d root' (some (md_extra m1)), ()⟩ : DMap r) = md_map m1 s1 := by subst hm1; rfl
+    obtain ⟨s2, x2, hg2, hc2, hp2, hpre2, hdl2⟩ :=
+      mdsr_promote_model cfg.T rs QR hR hQRhdrs cfg.addr m1 s1 _ hpre1
+    have hfin := mdsr_finish_model cfg.T eb rs QR hR hT1 cfg.addr (m1.promoteIfSingleChild s1.ctx).1 s2 x2
+      (some (.key rk)) (some (.val rv)) hpre2 hszR'
+    rw [hc2] at hfin
+    have hgen : OrderedMap_remove (envD cfg.T eb rs) depth (md_map m s) (.key k) =
+        mdsr_finish cfg.T eb rs (some (.key rk)) (some (.val rv)) (md_map (m1.promoteIfSingleChild s1.ctx).1 s2) := by
+      rw [hstep, hx1, hM1, hg2]
+      rfl
+    rcases hsp : OMap.splitRootIfFull cfg.T (m1.promoteIfSingleChild s1.ctx).1 (m1.promoteIfSingleChild s1.ctx).2
+      with e | ⟨m3, c3⟩
+    · rw [hsp] at hfin
+      obtain ⟨M', hr⟩ := hfin
+      exact ⟨M', by rw [hgen, hr]⟩
+    · rw [hsp] at hfin
+      obtain ⟨s3, x3, hr, hc3, hp3, hpre3, hdl3⟩ := hfin
+      refine ⟨s3, x3, by rw [hgen, hr], hc3, by rw [hp3, hp2, h3], hpre3, ?_⟩
+      exact (hpost.delta.trans (hids1 ▸ hdl2)).trans hdl3
+
+end
+
 end
 
 end Atree.TransEq
